@@ -222,6 +222,10 @@ def observe_write(l, width):
         return {'res': 'ERR RecursionError'}
     except Exception as e:  # noqa
         return {'res': 'ERR ' + lib.exc_name(e), 'events': enc_events(W.instances[-1]._ev) if W.instances else '-'}
+    if not W.instances:
+        # to_lines returned text without running the writer class it was given (a rendering kept from an earlier
+        # call?): nothing was observed of this write - reported as a failure of the write, not as a harness crash
+        return {'res': 'ERR writer-class-not-run', 'events': '-'}
     o = {'res': 'OK', 'text': text, 'events': enc_events(W.instances[-1]._ev)}
     try:
         o['out_enc'] = enc_tokens(lex(text))
